@@ -78,7 +78,7 @@ class Run:
         self.result = None
 
 
-def explore_session(ctx, n_events, n_inject, hold=9, kinds=None, inject_kinds=('incoming', 'teardown', 'reestablish')):
+def explore_session(ctx, n_events, n_inject, hold=9, kinds=None, inject_kinds=('incoming', 'teardown', 'reestablish'), attempts=1):
     conf = S.mk_conf(local_as=LOCAL_AS, peer_as=PEER_AS, hold=hold, families=('ipv4 unicast',), routes=('route 10.9.0.0/24 next-hop 192.0.2.9',), route_refresh=True)
     neighbor = S.neighbor_from(conf)
     neighbor.api = dict(neighbor.api)
@@ -122,6 +122,12 @@ def explore_session(ctx, n_events, n_inject, hold=9, kinds=None, inject_kinds=('
                     peer.handle_connection(inc)
 
     run.result = P.drive(peer._run(), max_steps=6000, between=between)
+    # Peer.run() calls _run() again for as long as the peer is to restart: further connection attempts of the SAME Peer
+    # object (its stats, timers and API state survive), fed by the rest of the script
+    run.attempts = 1
+    while run.attempts < attempts and run.result[0] == 'done' and peer._restart and count[0] < n_events:
+        run.attempts += 1
+        run.result = P.drive(peer._run(), max_steps=6000 * run.attempts, between=between)
     run.peer = peer
     run.world = P.WORLD
     run.hold = hold
@@ -179,8 +185,15 @@ def judge_fsm(ctx, run):
     ctx.check('down-after-last-up', last == 'down', sig='C05:api-up-not-followed-by-down', info=summary(run))
 
 
-def h_session(ctx, n_events, n_inject, hold=9):
-    run = explore_session(ctx, n_events, n_inject, hold)
+CORE_KINDS = ['open', 'keepalive', 'update', 'notification', 'eof']
+
+
+def h_session(ctx, n_events, n_inject, hold=9, attempts=1, kinds=None):
+    run = explore_session(ctx, n_events, n_inject, hold, kinds=kinds, attempts=attempts)
+    if run.attempts > 1:
+        ctx.cover('reconnected')
+        if [t for t in run.world.fsm].count(('OPENCONFIRM', 'ESTABLISHED')) > 1:
+            ctx.cover('established-twice')
     judge_fsm(ctx, run)
     s = summary(run)
     ctx.note('class', s['fsm'][-2] if len(s['fsm']) > 1 else 'none')
@@ -193,6 +206,12 @@ def units(tier):
           Unit('session/e3-i1', lambda ctx: h_session(ctx, 3, 1), must_cover=('established', 'never-established'), max_paths=300000, max_seconds=600, weight=80)]
     # negotiated Hold Time 0 (no keepalive timers): the OPENCONFIRM -> ESTABLISHED step must still wait for the peer's KEEPALIVE
     us.append(Unit('session/e3-i0-h0', lambda ctx: h_session(ctx, 3, 0, hold=0), must_cover=('established', 'never-established'), max_paths=300000, max_seconds=600, weight=30))
+    # several connection attempts of one Peer (what Peer.run() does): state that outlives a session (stats, API up/down)
+    us.append(Unit('attempts/e6-a3', lambda ctx: h_session(ctx, 6, 0, attempts=3, kinds=CORE_KINDS), must_cover=('established', 'reconnected', 'established-twice'),
+                   max_paths=300000, max_seconds=600, weight=60))
+    if th:
+        us.append(Unit('attempts/e8-a4', lambda ctx: h_session(ctx, 8, 0, attempts=4, kinds=CORE_KINDS), must_cover=('established', 'reconnected', 'established-twice'),
+                       max_paths=2000000, max_seconds=1500, weight=300))
     if th:
         us.append(Unit('session/e5-i0', lambda ctx: h_session(ctx, 5, 0), must_cover=('established',), max_paths=2000000, max_seconds=1500, weight=200))
         us.append(Unit('session/e4-i1-h0', lambda ctx: h_session(ctx, 4, 1, hold=0), must_cover=('established',), max_paths=2000000, max_seconds=1500, weight=200))
